@@ -73,6 +73,9 @@ func Reconnect(c Client, disconnect, reset func()) *ReconnectClient {
 	e.InitialInterval = RetryBaseDelay
 	e.MaxInterval = RetryMaxDelay
 	e.RandomizationFactor = RetryRandomization
+	// Apply InitialInterval: NewExponentialBackOff has already set the current
+	// interval from the package default.
+	e.Reset()
 	return &ReconnectClient{Client: c, backoff: e, disconnect: disconnect, reset: reset}
 }
 
